@@ -15,9 +15,10 @@ for ClassManager resolver calls).  Decided, for all inputs at once:
     to depend on the loop counter), reset per list;
 (4) encoded_field / encoded_method read idx_diff, access_flags(, code_off) as
     ULEB128 in document order.
-(5) the name/descriptor lookup helpers of DEX (agstatic/dexlookup.py): producer/consumer key
-    agreement of the dictionary caches, `==` guards against the getter of each parameter's
-    role in the linear scans (first match / every match), regex helpers match the name getter.
+(5) the name/descriptor lookup helpers of DEX (agstatic/dexsim.py): each helper is executed by the
+    abstract interpreter on a universe of items whose role getters answer with discriminating
+    constants (prefix names, shared names, array dimensions); every well-formed query must
+    return exactly the matching item(s) (first match / every match / None).
 Not decided: annotation/debug items, equality with a generated model.
 """
 from __future__ import annotations
@@ -191,7 +192,8 @@ class Model:
         self.folder = Folder(self.repo)
 
     def interp(self, asg, serials=False, opaque_default=None):
-        return DexInterp(self.repo, self.folder, asg=dict(asg), construct=lambda c: c.name in CONSTRUCT,
+        from ..dexsim import SimInterp
+        return SimInterp(self.repo, self.folder, asg=dict(asg), construct=lambda c: c.name in CONSTRUCT,
                          inline_module=self.m, serials=serials, opaque_default=opaque_default)
 
     def cls(self, name):
@@ -344,8 +346,8 @@ def core(ctx):
     check_members(ctx, md, list_roles)
     check_code(ctx, md)
     check_header_use(ctx, md)
-    from ..dexlookup import check_lookups
-    check_lookups(ctx, md.repo, md.folder)
+    from ..dexsim import check_lookups_sim
+    check_lookups_sim(ctx, md.repo, md.folder)
     check_passthrough(ctx, md)
 
 
@@ -869,25 +871,44 @@ def check_class_data(ctx, md):
 
 
 def find_loader(ctx, cls):
-    """the helper __init__ calls once per member list (by role: called >= 4 times from __init__ with a class argument)"""
+    """the helper ClassDataItem.__init__ hands (count, list, element class, stream, cm) to: the method of the class that is
+    called on self with a class argument (EncodedField / EncodedMethod) -- found by name resolution of the call arguments, in
+    __init__ or in a loop over a table of such triples"""
     init = cls.lookup("__init__")
-    cnt = {}
+    cands = set()
     for n in walk_no_nested(init.node):
-        if isinstance(n, ast.Call) and isinstance(n.func, ast.Attribute) and isinstance(n.func.value, ast.Name) and n.func.value.id == "self":
-            cnt[n.func.attr] = cnt.get(n.func.attr, 0) + 1
-    cands = [k for k, v in cnt.items() if v >= 2 and cls.lookup(k) is not None]
+        if isinstance(n, ast.Call) and isinstance(n.func, ast.Attribute) and isinstance(n.func.value, ast.Name) and n.func.value.id == "self" \
+                and cls.lookup(n.func.attr) is not None and len(n.args) >= 3:
+            cands.add(n.func.attr)
+    cands = {c for c in cands if len(cls.lookup(c).params()) >= 4}
     ctx.require(len(cands) == 1, "ClassDataItem.__init__: member-list loader helper not found (shape outside the fragment)")
-    return cls.lookup(cands[0])
+    return cls.lookup(cands.pop())
 
 
 def check_diff_chain(ctx, md, cls, loader):
-    # uniformity: the loop body must not read its counter
-    loops = [n for n in walk_no_nested(loader.node) if isinstance(n, (ast.For, ast.While))]
-    ctx.require(len(loops) == 1 and isinstance(loops[0], ast.For), "%s: expected one for-loop over the element count" % loader.qualname)
-    lp = loops[0]
-    counter = {x.id for x in ast.walk(lp.target) if isinstance(x, ast.Name)}
-    used = {x.id for s in lp.body for x in ast.walk(s) if isinstance(x, ast.Name) and isinstance(x.ctx, ast.Load)}
-    ctx.require(not (counter & used), "%s: loop body reads its counter; unrolling argument does not apply" % loader.qualname)
+    # uniformity: no counting loop (for x in range(...)) of the loader or of the self-helpers it calls reads its counter
+    funcs, work = {}, [loader]
+    while work:
+        f0 = work.pop()
+        if f0.qualname in funcs:
+            continue
+        funcs[f0.qualname] = f0
+        for n in walk_no_nested(f0.node):
+            if isinstance(n, ast.Call) and isinstance(n.func, ast.Attribute) and isinstance(n.func.value, ast.Name) and n.func.value.id == "self":
+                g = cls.lookup(n.func.attr)
+                if g is not None:
+                    work.append(g)
+    n_count = 0
+    for f0 in funcs.values():
+        for lp in walk_no_nested(f0.node):
+            if isinstance(lp, ast.While):
+                raise AnalysisError("%s: while loop in the element loader; unrolling argument does not apply" % f0.qualname)
+            if isinstance(lp, ast.For) and isinstance(lp.iter, ast.Call) and isinstance(lp.iter.func, ast.Name) and lp.iter.func.id == "range":
+                n_count += 1
+                counter = {x.id for x in ast.walk(lp.target) if isinstance(x, ast.Name)}
+                used = {x.id for s0 in lp.body for x in ast.walk(s0) if isinstance(x, ast.Name) and isinstance(x.ctx, ast.Load)}
+                ctx.require(not (counter & used), "%s: loop body reads its counter; unrolling argument does not apply" % f0.qualname)
+    ctx.require(n_count == 1, "%s: expected exactly one counting loop over the element count (found %d)" % (loader.qualname, n_count))
     params = loader.params()[1:]
     N = 3
     for ename, item, idx_getter in (("EncodedField", "encoded_field", "get_field_idx"), ("EncodedMethod", "encoded_method", "get_method_idx")):
@@ -1192,6 +1213,10 @@ def check_passthrough(ctx, md):
     idx = Sym("param", params[0])
     hooked = [v for v in vals if isinstance(v, Sym) and v.op == "index" and isinstance(v.args[0], Sym) and v.args[0].op == "attr"
               and v.args[0].args[0] == "self" and v.args[1] == idx]
+    # <table>.get(idx[, default]) form
+    hooked += [v for v in vals if isinstance(v, Sym) and v.op == "call" and len(v.args) >= 2 and isinstance(v.args[0], Sym) and v.args[0].op == "attr"
+               and v.args[0].args[-1] == "get" and isinstance(v.args[0].args[0], Sym) and v.args[0].args[0].op == "attr"
+               and v.args[0].args[0].args[0] == "self" and v.args[1] == idx]
     n = judge_passthrough(ctx, f, "ClassManager.get_string", vals, hooked + [Sym("cm.get_raw_string", idx)], set(),
                           "the hooked value of idx or get_raw_string(idx)")
     ctx.require(n > 0, "ClassManager.get_string never returns get_raw_string(idx)")
